@@ -551,6 +551,8 @@ func (ex *Exec) conv(dst, src types.Type, x Value) Value {
 				return string(rune(v))
 			case *SymStr:
 				return v
+			case *EncStr:
+				return v
 			case *smt.Term:
 				// string(byte-like): one character
 				return &SymStr{Len: bv8(1), Ch: []*smt.Term{smt.BVResize(v, 8, false)}}
@@ -598,6 +600,8 @@ func (ex *Exec) conv(dst, src types.Type, x Value) Value {
 					return Slice{Arr: arr, Len: len(s), Cap: len(s)}
 				case *SymStr:
 					return Slice{Arr: &Array{StrSrc: s}, Len: -1, Cap: -1}
+				case *EncStr:
+					return Slice{Arr: &Array{Enc: &encoded{v: s.v}}, Len: -2, Cap: -2}
 				}
 			} else if s, ok := x.(string); ok {
 				rs := []rune(s)
